@@ -150,8 +150,8 @@ def run(tier, v):
     xl, xm, xs, xt = x02.build(PID)
     fe = []
     for mode in ("tls", "http"):
-        for ln in xl[mode]:
-            if tier != "thorough" and ln["id"] % 3:
+        for k_, ln in enumerate(sorted(xl[mode], key=lambda l: (l["cap"], l["frames"]))):      # (not in TLC's print order)
+            if tier != "thorough" and k_ % 3:
                 continue
             for crate in (mode, mode + "_par"):
                 fe.append({"id": "%s|%d" % (crate, ln["id"]), "crate": crate, "frames": ln["frames"], "matcher": False, "cfg": {}, "cap": ln["cap"],
